@@ -3,6 +3,7 @@
 package c03
 
 import (
+	"bytes"
 	"fmt"
 	"testing"
 
@@ -353,6 +354,27 @@ func kemCase(im *kemImpl, k int) {
 		}
 		if got, err := im.sch.Decapsulate(usk, wantC); err != nil || !lib.Eq(got, wantK) {
 			kviol(im, "decaps-mismatch", "accept", "seed", seed, "m", m, "ct", wantC, "want", wantK, "got", got, "err", err, "key_from", "scheme-api")
+		}
+		// the secret written over a part of the ciphertext buffer (a caller
+		// decapsulating in place) and into a buffer that is not zero
+		for _, off := range []int{0, len(wantC) - 32, (len(wantC) / 2) &^ 7} {
+			buf := lib.Clone(wantC)
+			sk.DecapsulateTo(buf[off:off+32], buf)
+			lib.Eval()
+			lib.Count("decaps:in-place")
+			if !lib.Eq(buf[off:off+32], wantK) {
+				kviol(im, "decaps-mismatch", "accept:output-inside-ciphertext-buffer", "seed", seed, "m", m, "offset", off, "want", wantK, "got", buf[off:off+32])
+				break
+			}
+		}
+		{
+			got := bytes.Repeat([]byte{0xFF}, 32)
+			dct, dss := bytes.Repeat([]byte{0xEE}, len(wantC)), bytes.Repeat([]byte{0xDD}, 32)
+			sk.DecapsulateTo(got, wantC)
+			pk.EncapsulateTo(dct, dss, m)
+			if !lib.Eq(got, wantK) || !lib.Eq(dct, wantC) || !lib.Eq(dss, wantK) {
+				kviol(im, "encaps-mismatch", "used-output-buffers", "seed", seed, "m", m)
+			}
 		}
 
 		alts := alterations(p, r, wantC, e == 0)
